@@ -81,6 +81,10 @@ func (lh *WorkerLoop) Run(ctx context.Context) {
 
 		case msg := <-lh.MessagesChannel:
 			parsedMessage := interfaces.ToConsensusMessage(msg)
+			if parsedMessage == nil {
+				lh.logger.Info("LHFLOW LHMSG WORKERLOOP - IGNORING MESSAGE WITH UNKNOWN CONTENT")
+				continue
+			}
 			lh.logger.Debug("LHFLOW LHMSG WORKERLOOP RECEIVED %v from %v for H=%d V=%d", parsedMessage.MessageType(), parsedMessage.SenderMemberId(), parsedMessage.BlockHeight(), parsedMessage.View())
 			lh.filter.HandleConsensusRawMessage(msg)
 
